@@ -5,16 +5,17 @@ package route
 import (
 	"context"
 	"net/http"
+	"time"
 
 	huskyotlp "github.com/honeycombio/husky/otlp"
 )
 
 // Accessors for the `samplersel` harness (property C14).
 // Unexported names touched: Router.iopLogger, Router.registerMetricNames, Router.zstdDecoder,
-// makeDecoders, Router.batch, Router.processOTLPRequestBatchMsgp.
+// makeDecoders, Router.batch, Router.processOTLPRequestBatchMsgp, Router.proxyClient,
+// Router.environmentCache, newEnvironmentCache, Router.lookupEnvironment.
 
 // VerifSamplerselInit does the part of LnS that the handlers rely on, without opening a listener.
-// The environment cache is installed by the caller with the exported SetEnvironmentCache.
 func VerifSamplerselInit(r *Router) error {
 	r.iopLogger = iopLogger{Logger: r.Logger, incomingOrPeer: r.routerType.String()}
 	var err error
@@ -23,7 +24,15 @@ func VerifSamplerselInit(r *Router) error {
 		return err
 	}
 	r.registerMetricNames()
+	r.proxyClient = &http.Client{Timeout: 10 * time.Second, Transport: r.HTTPTransport}
+	VerifSamplerselResetEnvCache(r)
 	return nil
+}
+
+// VerifSamplerselResetEnvCache installs a fresh environment cache over the router's real
+// lookupEnvironment (the GET /1/auth call against Config.GetHoneycombAPI()), exactly as LnS does.
+func VerifSamplerselResetEnvCache(r *Router) {
+	r.environmentCache = newEnvironmentCache(r.Config.GetEnvironmentCacheTTL(), r.lookupEnvironment)
 }
 
 // VerifSamplerselBatch is the /1/batch/{datasetName} handler itself.
